@@ -781,16 +781,17 @@ class C03(StreamProp):
             "(depth <= 5, duplicate keys allowed, long strings, whitespace variants) with a fifth of them mutated, and an alignment sweep "
             "(string and number elements at offset 0..64 x length 0..130); each text goes through the whole-input in-place parse "
             "(from_slice and from_str), the second document of a stream (copy path), a field embedded in a typed struct (twice), raw-number "
-            "mode and lossy mode; the tree is dumped through the public read API only and compared with the specification's tree; "
+            "mode (whole input, second stream document, embedded field) and lossy mode; the tree is dumped through the public read API only and compared with the specification's tree; "
             "non-trivial = the text is accepted and contains a container or a string")
     trusted = ["number classification/rounding is the executable Spec.Num (exact big-integer arithmetic); see C07 for what is proved about it"]
     assumptions = []
     streams = [("c03", [("oracle", f, "spec", "dump") for f in ("whole", "whole_str", "embedded")]
-                + [("oracle", "stream2", "spec.pre", "dump"), ("oracle", "rawnum", "spec.raw.pre", "dump"), ("oracle", "lossy", "spec.lossy.pre", "dump")])]
+                + [("oracle", "stream2", "spec.pre", "dump"), ("oracle", "rawnum", "spec.raw.pre", "dump"), ("oracle", "lossy", "spec.lossy.pre", "dump"),
+                   ("oracle", "rawnum2", "spec.raw.pre", "dump"), ("oracle", "rawnum_emb", "spec.raw", "dump")])]
 
     def classify(self, stream, field, case, got, want, impl, model):
         t = unhex(case.split(" ")[1])
-        if field in ("stream2", "rawnum", "lossy") and re.match(rb"^[ \t\r\n]*-?0[0-9]", t):
+        if field in ("stream2", "rawnum", "rawnum2", "lossy") and re.match(rb"^[ \t\r\n]*-?0[0-9]", t):
             return None     # stream entry points: `00` is two documents (see C02)
         if want == "R":
             cls = "accepts-what-spec-rejects"
